@@ -13,7 +13,7 @@
     Python API (same calls, CBC underneath); their program is the same one plus the "no tie" rows, which lose no
     optimum when no pair is cheaper tied than in the average of its two orders ([C05_cplex_notie_optimal]; the
     source used a threshold of 0.001 there - finding F15, repaired). *)
-From Corankco Require Import Prelude Scheme Rank KemenySpec CostTable CostTableProof OptTheory Partition PartitionProof ILP ILPProof.
+From Corankco Require Import Prelude Scheme Rank KemenySpec CostTable CostTableProof OptTheory Partition PartitionProof ILP ILPProof ILPAll.
 Local Open Scope Z_scope.
 
 Theorem C05_opt_lower : forall K U c, mirror K -> NoDup U -> wfU U c -> opt K U <= score K c.
@@ -111,3 +111,20 @@ Proof.
   specialize (H (i, j) Hin). cbn [fst snd] in H. destruct (K i j) as [[b a] t]. lia.
 Qed.
 Print Assumptions C05_can_no_ties_spec.
+
+(** * "all optimal consensuses" (non-optimised model, no component row and no no-tie row): the decodings of the optimal feasible
+      points are EXACTLY the optimal rankings with ties, up to the listing of the members of a bucket *)
+Theorem C05_all_optimal_exactly : forall K n, mirror K ->
+  (forall v, feasible n [] v = true -> (forall v', feasible n [] v' = true -> obj_value K n v <= obj_value K n v') ->
+     wfU (seq 0 n) (decode n v) /\ score K (decode n v) = opt K (seq 0 n)) /\
+  (forall c, wfU (seq 0 n) c -> score K c = opt K (seq 0 n) ->
+     exists v, feasible n [] v = true /\ (forall v', feasible n [] v' = true -> obj_value K n v <= obj_value K n v') /\
+               same_order n (decode n v) c).
+Proof. exact all_optimal_exactly. Qed.
+Print Assumptions C05_all_optimal_exactly.
+
+(** the decoder inverts the encoding: a position function and the decoding of its 0/1 point order and tie the elements alike *)
+Theorem C05_decode_encode : forall n (p : posf) i j, (i < n)%nat -> (j < n)%nat ->
+  Z.compare (bucket_id (decode n (v_p p)) i) (bucket_id (decode n (v_p p)) j) = Z.compare (p i) (p j).
+Proof. exact decode_encode. Qed.
+Print Assumptions C05_decode_encode.
